@@ -6,5 +6,5 @@ V="$("$ROOT/engine/env.sh")" || { echo "HARNESS-ERROR: environment setup failed"
 cd "$ROOT"
 export PYTHONDONTWRITEBYTECODE=1
 export GALLIA_VERIF=1
-export PYTHONPATH="$ROOT${PYTHONPATH:+:$PYTHONPATH}"
+export PYTHONPATH="${VERIF_SRC:+$VERIF_SRC:}$ROOT${PYTHONPATH:+:$PYTHONPATH}"
 exec "$V/bin/python" -m engine.runner "$@"
